@@ -230,6 +230,10 @@ func runC08(r *ev.Run) {
 					q[i] = float32(rng.NormFloat64())
 				}
 				q[0] += 0.5
+				if live := sortedKeys(m.liveSet()); len(live) > 0 && rng.IntN(2) == 0 {
+					q = cloneF32(m.live[live[rng.IntN(len(live))]].Vec) // distance exactly 0 to a stored document
+					r.Count("probes:vector-only-query-equals-stored-vector", 1)
+				}
 				for _, k := range []int{bigK, 1 + rng.IntN(4)} {
 					got, err1 := s.NewSearch().WithVector(cloneF32(q)).WithK(k).Execute()
 					want, err2 := ref.idx.NewSearch().WithVector(cloneF32(q)).WithK(k).Execute()
@@ -442,7 +446,7 @@ func isNilIface(x any) bool {
 var schedulePoints = []string{
 	"memq.add.picked", "memtable.add.prelock", "flush.begin", "crash:flush.create.hybrid", "crash:flush.create.vector", "crash:flush.written",
 	"crash:flush.close.vector", "crash:flush.close.hybrid", "crash:flush.added", "flush.registered", "flush.dropped",
-	"segment.load.begin", "segment.load.done", "search.listed-memtables", "search.listed-segments",
+	"segment.load.begin", "segment.load.done", "search.listed-memtables", "search.listed-segments", "memq.list", "segmgr.list",
 	"compact.begin", "crash:compact.create.hybrid", "crash:compact.written", "crash:compact.added", "crash:compact.removed", "crash:delete.before", "compact.end",
 }
 
